@@ -288,6 +288,12 @@ def check_modifier_loop(ctx):
     if len(loops) != 1:
         raise AnalysisError("C14.3: the modifier-stripping loop (`while ...: first_char = elem[0]; if first_char == ...`) is not present in a recognised form")
     lp = loops[0]
+    # the variable that holds what is left of the token: the one whose first character is looked at (`first_char = <tok>[0]`); `elem` on the
+    # pinned tree, a working copy when the loop was extracted into a helper and inlined back
+    tokv = "elem"
+    for a_ in ast.walk(lp):
+        if isinstance(a_, ast.Assign) and len(a_.targets) == 1 and norm(a_.targets[0]) == "first_char" and isinstance(a_.value, ast.Subscript) and isinstance(a_.value.value, ast.Name):
+            tokv = a_.value.value.id
     chars = sorted({n.comparators[0].value for n in ast.walk(lp) if isinstance(n, ast.Compare) and norm(n.left) == "first_char" and isinstance(n.comparators[0], ast.Constant)})
     other_tests = [n for n in ast.walk(lp) if isinstance(n, ast.Compare) and norm(n.left) == "first_char" and not (
         len(n.ops) == 1 and isinstance(n.ops[0], (ast.Eq, ast.NotEq)) and isinstance(n.comparators[0], ast.Constant))]
@@ -319,14 +325,14 @@ def check_modifier_loop(ctx):
             if isinstance(e, ast.Compare) and len(e.ops) == 1 and norm(e.left) == "first_char" and isinstance(e.comparators[0], ast.Constant):
                 v = e.comparators[0].value == char
                 return v if isinstance(e.ops[0], ast.Eq) else not v
-            if isinstance(e, ast.Compare) and "len(elem)" in t:
-                if t in ("len(elem) == 0", "0 == len(elem)"):
+            if isinstance(e, ast.Compare) and f"len({tokv})" in t:
+                if t in (f"len({tokv}) == 0", f"0 == len({tokv})"):
                     return False
-                if t in ("len(elem) != 0", "len(elem) > 0", "0 != len(elem)"):
+                if t in (f"len({tokv}) != 0", f"len({tokv}) > 0", f"0 != len({tokv})"):
                     return True
-            if t == "elem":
+            if t == tokv:
                 return True
-            if isinstance(e, ast.Compare) and t.startswith("elem.count('=')") and len(e.ops) == 1 and isinstance(e.ops[0], (ast.Eq, ast.NotEq)) \
+            if isinstance(e, ast.Compare) and t.startswith(f"{tokv}.count('=')") and len(e.ops) == 1 and isinstance(e.ops[0], (ast.Eq, ast.NotEq)) \
                     and isinstance(e.comparators[0], ast.Constant) and e.comparators[0].value == 1:
                 v = char == "name="
                 return v if isinstance(e.ops[0], ast.Eq) else not v
@@ -341,7 +347,7 @@ def check_modifier_loop(ctx):
             a = n.ast
             if n.kind == "stmt" and isinstance(a, ast.Assign):
                 tx = norm(a)
-                if tx == "elem = elem[1:]":
+                if tx == f"{tokv} = {tokv}[1:]":
                     return "strip"
                 if isinstance(a.value, ast.Constant) and a.value.value is True and isinstance(a.targets[0], ast.Name):
                     return "flag:" + a.targets[0].id
